@@ -24,6 +24,7 @@
     c18.frombytes <chain> <hex>     → `W:`|`O:` then msg | none | err:<family>   (W = canonical frame of the
                                       message returned, or a frame-level rejection; O = anything else)
     c18.magic  <chain>              → hex
+    c18.hist   <step> <step> …      → outputs of the steps joined by `~` (see "histories" below)
 -/
 import Driver.Util
 import Driver.TxFmt
@@ -154,8 +155,84 @@ def parseLoop (magic : Bytes) (total : Nat) : Nat → Bytes → List String → 
           let tag := if frameAccepted magic s then "@payload" else ""
           (s!"err:{e.family}@{total - r.length}{tag}" :: acc).reverse
 
+/-! ### histories: one case = a sequence of steps on named message values, streams and the chain
+
+  The model has value semantics: a register holds the CURRENT field values, the chain is the CURRENT
+  chain; nothing else survives from one step to the next.  Steps (one per argument):
+    C <chain>                      SelectParams
+    N <reg>#<msg>#<variant>        a new message object with these field values
+    E <reg>#<edit>#<msg>           an in-place edit of the live object; <msg> = the field values after it
+    F <reg>                        to_bytes()                          → hex | err:<family> | noreg
+    S <sid> <reg>*                 a new stream holding the frames of these registers → len=<n>
+    A <sid> <reg>                  append the frame of <reg> to the stream (position kept) → len=<n>
+    P <sid> <reg>                  stream_deserialize on the stream; the message goes to <reg>
+                                   → pos@msg | pos@none | err:<family>@pos
+-/
+
+structure HState where
+  magic : Bytes
+  regs : List (String × Msg)
+  streams : List (String × Nat × Bytes)      -- bytes written so far, bytes not yet read
+  out : List String
+
+def setKey {α} (k : String) (v : α) (l : List (String × α)) : List (String × α) :=
+  (k, v) :: l.filter (fun p => p.1 != k)
+
+def frameOf (st : HState) (r : String) : Option (Res Bytes) :=
+  (st.regs.lookup r).map (Model.Msg.toBytes st.magic)
+
+def histStep (st : HState) (step : String) : Option HState :=
+  match step.splitOn "#" with
+  | [hd, a, b] =>
+      (match hd.splitOn " " with
+       | ["N", r] => (parseMsg? a).map (fun m => { st with regs := setKey r m st.regs })
+       | ["E", r] => (parseMsg? b).map (fun m => { st with regs := setKey r m st.regs })
+       | _ => none)
+  | [hd] =>
+      (match hd.splitOn " " with
+       | ["C", ch] => (magicOf? ch).map (fun m => { st with magic := m })
+       | ["F", r] =>
+           let o := match frameOf st r with
+             | none => "noreg"
+             | some res => Res.render (res.map toHex)
+           some { st with out := o :: st.out }
+       | "S" :: sid :: rs =>
+           let bytes := rs.foldl (fun acc r => match frameOf st r with
+             | some (.ok b) => acc ++ b
+             | _ => acc) []
+           some { st with streams := setKey sid (bytes.length, bytes) st.streams,
+                          out := s!"len={bytes.length}" :: st.out }
+       | ["A", sid, r] =>
+           (match st.streams.lookup sid, frameOf st r with
+            | some (tot, rem), some (.ok b) =>
+                some { st with streams := setKey sid (tot + b.length, rem ++ b) st.streams,
+                               out := s!"len={b.length}" :: st.out }
+            | _, _ => some { st with out := "len=0" :: st.out })
+       | ["P", sid, r] =>
+           (match st.streams.lookup sid with
+            | none => some { st with out := "nostream" :: st.out }
+            | some (tot, rem) =>
+                match Model.Msg.streamDeserialize st.magic rem with
+                | (.ok (some m), rest) =>
+                    some { st with streams := setKey sid (tot, rest) st.streams, regs := setKey r m st.regs,
+                                   out := s!"{tot - rest.length}@{showMsg m}" :: st.out }
+                | (.ok none, rest) =>
+                    some { st with streams := setKey sid (tot, rest) st.streams,
+                                   out := s!"{tot - rest.length}@none" :: st.out }
+                | (.error e, rest) =>
+                    some { st with streams := setKey sid (tot, rest) st.streams,
+                                   out := s!"err:{e.family}@{tot - rest.length}" :: st.out })
+       | _ => none)
+  | _ => none
+
+def hist (steps : List String) : Option String := do
+  let init : HState := { magic := (magicOf? "mainnet").getD [], regs := [], streams := [], out := [] }
+  let st ← steps.foldlM histStep init
+  pure ("~".intercalate st.out.reverse)
+
 def handle (op : String) (args : List String) : Option String :=
   match op, args with
+  | "c18.hist", steps => some ((hist steps).getD badArgs)
   | "c18.frame", [chain, msg] => some <|
       match magicOf? chain, parseMsg? msg with
       | some magic, some m =>
